@@ -12,8 +12,9 @@ Core Lean only.  Mirrored:
   runner/plugin_runner.go runOnRequest: EVERY remedy of the chain is run (no short-circuit), the actions are
       prioritised: the first non-NoOp (early response) wins                                    ↦ `dispatchStep`
   obtainModifiedEarlyResponse: an early response is run through the response side of the chain as a synthetic
-      response; retry sees a COPY (the early response keeps its status and body) — but a caching remedy STORES it
-      and replays it to later requests of the (method, url) (finding F09g)                      ↦ `storeEarly`
+      response marked `GatewayGenerated`; retry sees a COPY (the early response keeps its status and body) and the
+      caching remedy does not store gateway-generated responses (fix F09g) — in this family (no provider responses)
+      its store stays empty, so it never answers                                                ↦ caching is transparent
   request-side prioritisation (actions/request_action_prioritize.go): NoOp yields to anything, an early response
       beats everything that comes later, Modify/GenerateRequest yield to a later early response ↦ first early wins
   The rate-limit state is keyed by the remedy NAME (`LimiterID`), not by the endpoint.
@@ -25,11 +26,11 @@ namespace LunarVerif.C09
 
 inductive DKind where
   | throttle (r : Remedy)     -- `r.name` is ignored: the policy's name is used
-  | retry (attempts lo hi : Int)  -- response side only: header-only ModifyResponseAction when lo ≤ status ≤ hi
+  | retry (attempts lo hi : Int)  -- response side only (its parameters do not matter for the verdict)
   | other                     -- authentication (o_auth / api_key / basic), account orchestration: they change the
                               -- forwarded request (Modify/GenerateRequestAction), never the verdict
   | fixed (status : Int)      -- fixed_response: answers when the request carries `early-response: true`
-  | cache (maxrec : Nat)      -- caching (endpoint only): serves / stores a response per (method, url)
+  | cache (maxrec : Nat)      -- caching (endpoint only): stores PROVIDER responses only (fix F09g); none exist here
 deriving Repr
 
 /-- One configured policy (remedy): where it is attached, its name, whether it is enabled, what it is. -/
@@ -55,15 +56,11 @@ def toDAns : Answer → DAns
   | .early s => .early s tooMany
   | _ => .err
 
-/-- rate-limit state and the caching plugin's store ((method, url) ↦ status, body; entries never expire here:
-    the harness configures a TTL longer than any case) -/
+/-- the state the verdicts depend on: the rate-limit state (the caching plugin's store holds provider responses
+    only, and this family has none) -/
 structure DState where
-  lim   : State Key := []
-  cache : List ((String × String) × (Int × String)) := []
+  lim : State Key := []
 deriving Repr
-
-def cacheGet (c : List ((String × String) × (Int × String))) (k : String × String) : Option (Int × String) :=
-  (c.find? (fun e => e.1 == k)).map (·.2)
 
 /-- `lo.FindDuplicates` of the policy names is non-empty. -/
 def hasDuplicateNames (ps : List DPol) : Bool :=
@@ -84,7 +81,7 @@ def isCache (p : DPol) : Bool := match p.kind with | .cache _ => true | _ => fal
 /-- kinds that can never answer a request themselves -/
 def isTransparent (p : DPol) : Bool :=
   match p.kind with
-  | .retry _ _ _ | .other => true
+  | .retry _ _ _ | .other | .cache _ => true
   | _ => false
 
 /-- `strings.Trim(url, "./")`: how both `BuildEndpointPolicyTree` (the key under which the methods of one URL
@@ -113,11 +110,7 @@ def stepPol (cap : CapFn) (url method : String) (hs : List (String × String)) (
     let (lim', a) := pluginStep cap s.lim { r with name := p.name, identityHash := true } hs t
     ({ s with lim := lim' }, toDAns a)
   | .fixed status => (s, if lookupHdr hs "early-response" == "true" then .early status goLunar else .pass)
-  | .cache _ =>
-    (s, match cacheGet s.cache (method, url) with
-        | some (st, b) => .early st b
-        | none => .pass)
-  | .retry _ _ _ | .other => (s, .pass)
+  | .retry _ _ _ | .other | .cache _ => (s, .pass)
 
 /-- `runOnRequest` over a chain: EVERY remedy takes its step; the first answer that is not a pass wins. -/
 def runChain (cap : CapFn) (url method : String) (hs : List (String × String)) (t : Nat) :
@@ -127,39 +120,10 @@ def runChain (cap : CapFn) (url method : String) (hs : List (String × String)) 
     let (s', a) := stepPol cap url method hs t p s
     runChain cap url method hs t ps s' (if ans == .pass then a else ans)
 
-/-- Response side of a chain on the synthetic response of an early response (`runOnResponse`): what the first
-    caching remedy that stores would store.  `seen` is the (status, body) the running response carries: a retry
-    remedy whose range covers the status (new sequence, attempts ≥ 1) answers with a header-only
-    `ModifyResponseAction`, and `EnsureResponseIsUpdated` then overwrites status and body of the running response
-    with that action's zero values — a caching remedy listed AFTER it stores status 0 and an empty body. -/
-def storeWalk : List DPol → (Int × String) → Option (Int × String)
-  | [], _ => none
-  | p :: ps, seen =>
-    match p.kind with
-    | .retry attempts lo hi =>
-      if decide (lo ≤ seen.1) && decide (seen.1 ≤ hi) && decide (1 ≤ attempts) then storeWalk ps (0, "")
-      else storeWalk ps seen
-    | .cache maxrec => if seen.2.utf8ByteSize ≤ maxrec then some seen else storeWalk ps seen
-    | _ => storeWalk ps seen
-
-/-- `obtainModifiedEarlyResponse`: the early response is run through the response side of the chain as a
-    synthetic response — a caching remedy STORES it unless the (method, url) is already stored. -/
-def storeEarly (c : List ((String × String) × (Int × String))) (ch : List DPol) (url method : String) :
-    DAns → List ((String × String) × (Int × String))
-  | .early st b =>
-    if (cacheGet c (method, url)).isNone then
-      match storeWalk ch (st, b) with
-      | some rec => c ++ [((method, url), rec)]
-      | none => c
-    else c
-  | _ => c
-
 /-- `runner.DispatchOnRequest` as far as the verdict, the rejection status and body are concerned. -/
 def dispatchStep (cap : CapFn) (s : DState) (ps : List DPol) (url method : String)
     (hs : List (String × String)) (t : Nat) : DState × DAns :=
-  let ch := chain ps url method
-  let (s', a) := runChain cap url method hs t ch s .pass
-  ({ s' with cache := storeEarly s'.cache ch url method a }, a)
+  runChain cap url method hs t (chain ps url method) s .pass
 
 /-- the throttling policies of a request's chain, with their position in the configuration -/
 def throttlesOf (ps : List DPol) (url method : String) : List (Nat × Remedy) :=
@@ -167,10 +131,5 @@ def throttlesOf (ps : List DPol) (url method : String) : List (Nat × Remedy) :=
   let pick (global : Bool) := idx.filterMap fun (i, p) =>
     if (p.ep.isNone == global) && applies p url method then (remedyOf p).map (fun r => (i, r)) else none
   pick false ++ pick true
-
-/-- Classifier used by the judge for a failing dispatcher-level group: a caching remedy is configured (finding
-    F09g: it stores and replays throttling rejections); else unexplained. -/
-def findingD (ps : List DPol) : Option String :=
-  if ps.any (fun p => p.enabled && isCache p) then some "F09g" else none
 
 end LunarVerif.C09
